@@ -40,6 +40,15 @@ def run(ctx: Ctx) -> None:
     race(ctx)
     survive(ctx)
     eager_action_rules(ctx, "R-C16-EAGER")
+    pr = ctx.func(f"{C.PROCESSOR}.process")
+    for h in C.helper_callees(ctx, pr, depth=1):
+        if h.name in ("_actor_run", "actor_run", "report_to_broker", "set_result_bucket") or h.cls is None or h.cls.qualname != C.PROCESSOR:
+            continue
+        gh = ctx.cfg(h)
+        raises = [n for n in gh.nodes if n.kind == "raise" and isinstance(n.ast, ast.Raise)]
+        ctx.check(not raises, "R-C02-CATCH", h, f"{h.short()} (called by process() outside the outcome try) raises nothing of its own", "a missing bucket etc. is a value, not an exception",
+                  f"{h.short()} raises ({[unparse(r.ast)[:50] for r in raises]}) and is called by process() before the actor's try block: the exception escapes process(), the delivery gets "
+                  "no terminal action at all (the message stays in flight)", instance=f"{h.short()}: total")
     from .C18 import DEPENDS, chain
 
     with ctx.as_rule("R-C02-CATCH"):
